@@ -212,7 +212,6 @@ theorem popAt_eq {α : Type} {l l' : List α} {i : Int} {x : α} (h : popAt l i 
     · rename_i y hy
       cases h; exact ⟨k, rfl, hy⟩
 
-set_option maxHeartbeats 400000 in
 /-- **what left is accounted for, sequences, every call** -/
 theorem seqStep_det (n : Node) (hk : kok n = true) (hseq : IsSeq n.kind) (op : SeqOp)
     (hop : kokL (placedSeq op) = true) (next : Nat) : Det n (placedSeq op) next (seqStep n op next) := by
